@@ -15,10 +15,12 @@ EXPLANATION = (
     "ones are mark_skipped (identity, not name equality), the feature is untouched without lines or for a bare file. "
     "L6: add_location: no line / line 0 selects all, a line is recorded. L7: name selection truth tables of Scenario "
     "and ScenarioOutline; G4: should_run consults tags AND name. L8: collector.clear() re-initialises every attribute "
-    "any collector method assigns (parse_features re-uses one collector for all files).")
+    "any collector method assigns (parse_features re-uses one collector for all files). L9: FileLocationParser.parse and "
+    "FeatureListParser.parse evaluated on concrete texts by constant folding (re, os.path, glob are the stdlib's): "
+    "FILE, FILE:LINE, padded, drive-letter and colon-in-directory forms; a list file with comments, indented comments, "
+    "blank lines, padded names, relative and absolute paths, with and without a base directory.")
 NOT_DECIDED = ("the predecessor arithmetic on line numbers (bisect(...) - 1, clamping): any rule strong enough to catch an "
-               "off-by-one would also reject equivalent rewrites; FileLocationParser's regex on concrete paths; "
-               "@listfile reads; grouping of locations in parse_features beyond L8")
+               "off-by-one would also reject equivalent rewrites; wildcard expansion in list files (file system); grouping of locations in parse_features beyond L8")
 TECHNIQUE = "static analysis: abstract evaluation of the selection code on model tokens (identity vs equality semantics of sets/lists, truth tables), ladder-order rule over the resolved class hierarchy, field-reset rule"
 
 
@@ -27,6 +29,7 @@ def t_loc(chk, ix):
     rules_location.check_build_feature(chk, ix)
     rules_location.check_add_location_and_clear(chk, ix)
     rules_location.check_name_selection(chk, ix)
+    rules_location.check_location_parsing(chk, ix)
     funcs = [ix.func("behave.runner_util:FeatureLineDatabase.select_scenarios_by_line"),
              ix.func("behave.runner_util:FeatureLineDatabase.make_line_data_for"),
              ix.func("behave.model:ScenarioContainer.walk_scenarios")]
@@ -36,5 +39,5 @@ def t_loc(chk, ix):
 
 def run(chk, ix, tier):
     t_loc(chk, ix)
-    for r, n in (("L1", 4), ("L3", 2), ("L4", 6), ("L6", 3), ("L7", 8), ("L8", 3), ("RF1", 3), ("G4", 16)):
+    for r, n in (("L1", 4), ("L3", 2), ("L4", 6), ("L6", 3), ("L7", 8), ("L8", 3), ("L9", 11), ("RF1", 3), ("G4", 16)):
         chk.require_instances(r, n)
